@@ -21,7 +21,7 @@ from pytypes import (T, TVar, TInt, TBool, TRat, TUnit, TList, TSet, TArr, TDict
                      unify, kind, is_mutable, lean_type, atom, Unsupported)
 from exprs import ident, int_lit                                                                         # noqa: E402
 from calls import Calls, BUILTINS, dotted                                                                # noqa: E402
-from stmts import FnCtx, FnFin, indent                                                                   # noqa: E402
+from stmts import FnCtx, FnFin, Widen, indent                                                                   # noqa: E402
 
 # library bindings: classes of other modules that are only constructed / read (fields and their types)
 EXT_CLASSES = {"ComponentGridInfo": [("levelvector", TList(TInt)), ("coefficient", TRat)]}
@@ -70,6 +70,11 @@ class FuncInfo:
         self.recursive = False
         self.measure = None
         self.returns_alias = False
+        self.fresh_returns = []    # per `return` of a mutable value: is it a fresh object (no alias of state / parameters)?
+        self.variant = None        # typed reading of a dynamically typed method (spec "variants")
+        self.owner = None          # class of a family (spec "family") that defines this method itself
+        self.widen = set()         # loop-carried variables initialised with an int that receive a float (held as Rat)
+        self.uses_abstract = False
         self.out_params = []       # record parameters whose elements the function changes: returned next to the result
         self.calls = []
 
@@ -80,9 +85,40 @@ class FuncInfo:
         return self.value_type()
 
     def full_type(self, mod):
+        if getattr(self, "prefix_types", None) is not None:
+            parts = ([mod.cls_type] if self.mutates else []) + [t for n, t, _ in self.params if n in self.out_params] + list(self.prefix_types)
+            return TUnit if not parts else (parts[0] if len(parts) == 1 else TProd(parts))
         parts = ([mod.cls_type] if self.mutates else []) + [t for n, t, _ in self.params if n in self.out_params] \
             + ([] if self.ret_mode == "unit" else [self.value_type()])
         return TUnit if not parts else (parts[0] if len(parts) == 1 else TProd(parts))
+
+
+def const_fraction(e):
+    """value of a constant arithmetic expression over exact rationals (`10 ** -3` = 1/1000), else None"""
+    from fractions import Fraction
+    try:
+        if isinstance(e, ast.Constant) and isinstance(e.value, (int, float)) and not isinstance(e.value, bool):
+            return Fraction(str(e.value))
+        if isinstance(e, ast.UnaryOp) and isinstance(e.op, ast.USub):
+            v = const_fraction(e.operand)
+            return None if v is None else -v
+        if isinstance(e, ast.BinOp):
+            a, b = const_fraction(e.left), const_fraction(e.right)
+            if a is None or b is None:
+                return None
+            if isinstance(e.op, ast.Add):
+                return a + b
+            if isinstance(e.op, ast.Sub):
+                return a - b
+            if isinstance(e.op, ast.Mult):
+                return a * b
+            if isinstance(e.op, ast.Div):
+                return a / b
+            if isinstance(e.op, ast.Pow) and b.denominator == 1:
+                return a ** int(b)
+    except Exception:
+        return None
+    return None
 
 
 def always_returns(stmts):
@@ -103,6 +139,14 @@ class Module:
         self.assume = {k: list(v) for k, v in self.spec.get("assume", {}).items()}
         self.fuel = {k: (v if isinstance(v, list) else [v]) for k, v in self.spec.get("fuel", {}).items()}
         self.ignore_calls = set(self.spec.get("ignore_calls", []))
+        self.prefix = self.spec.get("prefix", {})
+        self.opaque = list(self.spec.get("opaque_types", []))       # type parameters of the generated module
+        self.effects, self.reads, self.read_attrs = {}, {}, {}
+        self.call_through = self.spec.get("call_through", {})
+        self.assume_exprs = self.spec.get("assume_exprs", {})
+        self.ghost = self.spec.get("ghost_params", {})
+        self.variants = self.spec.get("variants", {})     # several typed readings of one dynamically typed method
+        self.abstract = {}
         self.records = {}
         self.objects = {}          # classes translated elsewhere (another generated module): name -> {lean_type, namespace, import, methods}
         self.records_log = []
@@ -115,51 +159,153 @@ class Module:
         tree = ast.parse(self.src, filename=relfile)
         self.scope = Scope(tree)
         self.scope.modules.update(self.spec.get("modules", {}))
+        self.ext_classes = {k: v for k, v in EXT_CLASSES.items()
+                            if self.scope.names.get(k, "").endswith("." + k) or k in self.spec.get("ext_classes", [])}
         for name, o in self.spec.get("objects", {}).items():
             self.objects[name] = dict(o, methods={})
         for name, o in self.spec.get("objects", {}).items():
             for m, sig in o.get("methods", {}).items():
                 self.objects[name]["methods"][m] = {"args": [self.type_of_text(a) for a in sig.get("args", [])], "mutates": bool(sig.get("mutates")),
+                                                    "params": sig.get("params"),
                                                     "ret": self.type_of_text(sig["ret"]) if sig.get("ret") else None}
+        for name, o in self.spec.get("objects", {}).items():
+            self.objects[name]["field_types"] = {f: self.type_of_text(t) for f, t in o.get("fields", {}).items()}
+        def _sig(v):
+            return {"name": v["name"], "args": [self.type_of_text(a) for a in v.get("args", [])], "params": v.get("params"),
+                    "defaults": v.get("defaults"), "ret": self.type_of_text(v["ret"]) if v.get("ret") else None}
+        self.effects = {k: _sig(v) for k, v in self.spec.get("effects", {}).items()}
+        self.reads = {k: _sig(v) for k, v in self.spec.get("reads", {}).items()}
+        self.read_attrs = {k: _sig(v) for k, v in self.spec.get("read_attrs", {}).items()}
+        for m, sig in self.spec.get("abstract", {}).items():          # abstract methods of the class: parameters of the translation
+            self.abstract[m] = {"args": [self.type_of_text(a) for a in sig.get("args", [])], "ret": self.type_of_text(sig["ret"])}
         for name in self.spec.get("records", {}):        # declared interfaces of classes of other modules (two passes: they may refer to each other)
             self.records[name] = {"fields": [], "getters": {}}
         for name, r in self.spec.get("records", {}).items():
             self.records[name]["fields"] = [(f, self.type_of_text(t)) for f, t in r.get("fields", {}).items()]
             self.records[name]["getters"] = {m: self.type_of_text(t) for m, t in r.get("getters", {}).items()}
-        self.ext_classes = {k: v for k, v in EXT_CLASSES.items() if self.scope.names.get(k, "").endswith("." + k)}
         cdef = [n for n in tree.body if isinstance(n, ast.ClassDef) and n.name == cls_name]
         if len(cdef) != 1:
             raise Unsupported("class %s not found in %s" % (cls_name, relfile))
         cdef = cdef[0]
-        self.cls_type = TObj(self.state_name)
+        self.cls_type = TObj(" ".join([self.state_name] + self.opaque))
         self.funcs = {}
-        methods = {}
-        for n in cdef.body:
-            if isinstance(n, ast.FunctionDef):
-                if n.name in methods:
-                    raise Unsupported("method %s defined twice" % n.name, n)
-                methods[n.name] = n
-            elif isinstance(n, (ast.Assign, ast.AnnAssign)):
-                raise Unsupported("class-level attribute", n)
-            elif not (isinstance(n, ast.Expr) and isinstance(n.value, ast.Constant)) and not isinstance(n, ast.Pass):
-                raise Unsupported("unsupported class member %s" % type(n).__name__, n)
+        classes = {n.name: n for n in tree.body if isinstance(n, ast.ClassDef)}
+
+        def own_methods(c, strict=True):
+            out = {}
+            for n in c.body:
+                if isinstance(n, ast.FunctionDef):
+                    if n.name in out and strict:
+                        raise Unsupported("method %s defined twice" % n.name, n)
+                    out[n.name] = n                    # (a base class: the later definition is the one Python keeps)
+                elif not strict:
+                    continue
+                elif isinstance(n, (ast.Assign, ast.AnnAssign)):
+                    raise Unsupported("class-level attribute", n)
+                elif not (isinstance(n, ast.Expr) and isinstance(n.value, ast.Constant)) and not isinstance(n, ast.Pass):
+                    raise Unsupported("unsupported class member %s" % type(n).__name__, n)
+            return out
+
+        def base_of(c, strict=False):
+            """the base class of c if it is its only base (ABC / object aside) and is defined in this file, else None (methods of
+            other base classes are not looked up: a call of one is an unknown function)"""
+            bs = [b for b in c.bases if not (isinstance(b, ast.Name) and b.id in ("ABC", "object"))]
+            if len(bs) == 1 and isinstance(bs[0], ast.Name) and bs[0].id in classes and not c.keywords:
+                return classes[bs[0].id]
+            if strict and bs:
+                raise Unsupported("base classes of %s: only a single base class defined in the same file is supported" % c.name, c)
+            return None
+
+        methods = own_methods(cdef)
+        self.inherited = {}
+        anc = base_of(cdef)
+        while anc is not None:                            # inherited methods: the nearest definition along the chain of base classes
+            for k, v in own_methods(anc, strict=False).items():
+                if k not in methods:
+                    methods[k] = v
+                    self.inherited[k] = anc.name
+            anc = base_of(anc)
+        # a family of concrete subclasses of the translated class that add no state: their own methods are translated as
+        # `<Class>_<method>`, an object of the family is (class tag, state), a method call on it dispatches on the tag
+        self.family = self.spec.get("family")
+        self.owner_of, self.family_defs = {}, {}
+        if self.family:
+            for cname in self.family["classes"]:
+                if cname not in classes:
+                    raise Unsupported("class %s of the family not found in %s" % (cname, relfile))
+                chain, c = [], classes[cname]
+                while c is not None and c.name != cls_name:
+                    chain.append(c)
+                    c = base_of(c, strict=True)
+                if c is None:
+                    raise Unsupported("class %s of the family is not a subclass of %s" % (cname, cls_name), classes[cname])
+                self.family_defs[cname] = set()
+                for c in chain:
+                    for k, v in own_methods(c).items():
+                        if k == "__init__":
+                            self.check_forwarding_init(v, methods.get("__init__"), c.name)
+                            continue
+                        if k not in self.family_defs[cname]:
+                            self.family_defs[cname].add(k)
+                            methods[cname + "_" + k] = v
+                            self.owner_of[cname + "_" + k] = cname
         selected = self.spec.get("functions")
+        if selected is not None and self.family:
+            selected = list(selected)
+            for cname in self.family["classes"]:
+                for m in self.family["methods"]:
+                    r = (cname + "_" + m) if m in self.family_defs[cname] else m
+                    if r not in methods:
+                        raise Unsupported("method %s of the family is not defined for class %s" % (m, cname))
+                    if r not in selected:
+                        selected.append(r)
         if selected is None:
             selected = list(methods)
         else:                                             # the slice: the listed methods and every method of the class they call
-            todo = list(selected)
+            todo = [] if self.spec.get("no_closure") else list(selected)
+            for f in selected:
+                if f not in methods:
+                    raise Unsupported("method %s of the spec not found in class %s" % (f, cls_name))
             while todo:
                 f = todo.pop()
                 if f not in methods:
                     raise Unsupported("method %s of the spec not found in class %s" % (f, cls_name))
-                for c in ast.walk(methods[f]):
+                body = methods[f].body
+                if f in self.prefix:                       # only the translated prefix of the function counts
+                    cut = next((i for i, st in enumerate(body) if ast.unparse(st).startswith(self.prefix[f]["until"])), len(body))
+                    body = body[:cut]
+                for c in [x for st in body for x in ast.walk(st)]:
                     if isinstance(c, ast.Call) and isinstance(c.func, ast.Attribute) and isinstance(c.func.value, ast.Name) \
-                            and c.func.value.id in ("self", cls_name) and c.func.attr in methods and c.func.attr not in selected:
-                        selected.append(c.func.attr)
-                        todo.append(c.func.attr)
+                            and c.func.value.id in ("self", cls_name) \
+                            and ("self." + c.func.attr) not in self.spec.get("effects", {}) and ("self." + c.func.attr) not in self.spec.get("reads", {}):
+                        callee = c.func.attr
+                        if f in self.owner_of and (self.owner_of[f] + "_" + callee) in methods:
+                            callee = self.owner_of[f] + "_" + callee           # the subclass's own definition comes first
+                        if callee in methods and callee not in selected:
+                            selected.append(callee)
+                            todo.append(callee)
         for name in methods:
             if name in selected:
-                self.funcs[name] = FuncInfo(methods[name], True, self.scope, relfile)
+                fi = FuncInfo(methods[name], True, self.scope, relfile)
+                if name in self.owner_of:
+                    fi.name, fi.lean_name, fi.owner = name, ident(name), self.owner_of[name]
+                self.funcs[name] = fi
+        if self.family:              # open recursion: a method of the base class must not call a method that a family class (re)defines
+            redefined = set(k for d in self.family_defs.values() for k in d)
+            for name, fi in self.funcs.items():
+                if fi.owner is None:
+                    for c in ast.walk(fi.node):
+                        if isinstance(c, ast.Call) and isinstance(c.func, ast.Attribute) and isinstance(c.func.value, ast.Name) \
+                                and c.func.value.id == "self" and c.func.attr in redefined:
+                            raise Unsupported("%s of the base class calls self.%s, which classes of the family define themselves "
+                                              "(dispatch back into the subclass)" % (name, c.func.attr), c)
+        for vname, v in self.variants.items():
+            if v["function"] not in methods:
+                raise Unsupported("method %s of variant %s not found" % (v["function"], vname))
+            fi = FuncInfo(methods[v["function"]], True, self.scope, relfile)
+            fi.name, fi.lean_name, fi.variant = vname, ident(vname), v
+            self.funcs[vname] = fi
+            self.spec.setdefault("signatures", {})[vname] = v.get("signature", {})
         self.fields = {f: self.type_of_text(t) for f, t in self.spec.get("fields", {}).items()}
         for fn in list(self.funcs.values()):
             for n in ast.walk(fn.node):
@@ -198,11 +344,37 @@ class Module:
                         todo.append(self.funcs[f])
 
     # ------------------------------------------------------------------ whole-module analyses
+    def method_for(self, fn, attr):
+        """the translated method that `self.<attr>` denotes inside fn (a family class's own definition first)"""
+        if fn.owner is not None and (fn.owner + "_" + attr) in self.funcs:
+            return self.funcs[fn.owner + "_" + attr]
+        m = self.funcs.get(attr)
+        return m if m is not None and m.cls and m.owner is None else None
+
+    def check_forwarding_init(self, node, base_init, cname):
+        """a family class adds no state: its constructor only forwards its own parameters, in order, to the base constructor"""
+        ps = [a.arg for a in node.args.args[1:]]
+        ok = len(node.body) == 1 and isinstance(node.body[0], ast.Expr) and isinstance(node.body[0].value, ast.Call)
+        if ok:
+            c = node.body[0].value
+            ok = isinstance(c.func, ast.Attribute) and c.func.attr == "__init__" and isinstance(c.func.value, ast.Call) \
+                and isinstance(c.func.value.func, ast.Name) and c.func.value.func.id == "super" and not c.keywords \
+                and [ast.unparse(a) for a in c.args] == ps and not node.args.defaults and not node.args.kwonlyargs
+            if ok and c.func.value.args:
+                ok = [ast.unparse(a) for a in c.func.value.args] == [cname, "self"]
+        if ok and base_init is not None:
+            ok = len(base_init.args.args) - 1 == len(ps)
+        if not ok:
+            raise Unsupported("constructor of the family class %s is not a plain forwarding of its parameters to the base constructor" % cname, node)
+
     def callee(self, fn, call):
         f = call.func
-        if isinstance(f, ast.Attribute) and isinstance(f.value, ast.Name) and f.value.id in ("self", self.cls_name) \
-                and fn.cls and f.attr in self.funcs and self.funcs[f.attr].cls:
-            return self.funcs[f.attr]
+        if ast.unparse(f) in self.spec.get("effects", {}) or ast.unparse(f) in self.spec.get("reads", {}):
+            return None
+        if isinstance(f, ast.Attribute) and isinstance(f.value, ast.Name) and f.value.id in ("self", self.cls_name) and fn.cls:
+            m = self.method_for(fn, f.attr)
+            if m is not None:
+                return m
         if isinstance(f, ast.Name) and f.id in self.funcs and not self.funcs[f.id].cls:
             return self.funcs[f.id]
         return None
@@ -214,12 +386,30 @@ class Module:
                     c = self.callee(fn, n)
                     if c is not None and c not in fn.calls:
                         fn.calls.append(c)
-                if isinstance(n, (ast.FunctionDef, ast.AsyncFunctionDef)) and n is not fn.node:
-                    raise Unsupported("nested function definition", n)
+                if isinstance(n, ast.AsyncFunctionDef):
+                    raise Unsupported("async function definition", n)
                 if isinstance(n, (ast.Global, ast.Nonlocal, ast.Yield, ast.YieldFrom, ast.Await, ast.Try, ast.With,
                                   ast.Delete, ast.Raise, ast.ClassDef, ast.Continue)):
                     raise Unsupported("unsupported statement %s in %s" % (type(n).__name__, fn.name), n)
             fn.recursive = fn in fn.calls
+        for fn in self.funcs.values():
+            for n in ast.walk(fn.node):
+                if isinstance(n, ast.Call) and isinstance(n.func, ast.Attribute) and isinstance(n.func.value, ast.Name) \
+                        and n.func.value.id == "self" and n.func.attr in self.abstract:
+                    fn.uses_abstract = True
+        for fn in self.funcs.values():
+            for n in ast.walk(fn.node):
+                u = ast.unparse(n.func) if isinstance(n, ast.Call) else (ast.unparse(n) if isinstance(n, ast.Attribute) else None)
+                if u in self.effects:
+                    fn.uses_abstract = fn.mutates_world = True
+                if u in self.reads or u in self.read_attrs:
+                    fn.uses_abstract = True
+        grew = True
+        while grew:
+            grew = False
+            for fn in self.funcs.values():
+                if not fn.uses_abstract and any(c.uses_abstract for c in fn.calls):
+                    fn.uses_abstract = grew = True
         # state-changing methods (fixpoint over the call graph)
         for fn in self.funcs.values():
             if not fn.is_method:
@@ -240,6 +430,8 @@ class Module:
                             if isinstance(v, ast.Attribute) and isinstance(v.value, ast.Name) and v.value.id == "self":
                                 fn.mutates = True
         for fn in self.funcs.values():
+            if getattr(fn, "mutates_world", False):
+                fn.mutates = True
             for n in ast.walk(fn.node):
                 if isinstance(n, ast.Call):
                     om = self.object_method(fn, n)
@@ -253,7 +445,8 @@ class Module:
                     fn.mutates = changed = True
         # shape of the result
         for fn in self.funcs.values():
-            rets = [n for n in ast.walk(fn.node) if isinstance(n, ast.Return)]
+            nested = {id(m) for d in ast.walk(fn.node) if isinstance(d, (ast.FunctionDef, ast.Lambda)) and d is not fn.node for m in ast.walk(d)}
+            rets = [n for n in ast.walk(fn.node) if isinstance(n, ast.Return) and id(n) not in nested]
             valued = [r for r in rets if r.value is not None and not (isinstance(r.value, ast.Constant) and r.value.value is None)]
             bare = len(valued) < len(rets) or not always_returns(fn.node.body)
             fn.ret_mode = "unit" if not valued else ("option" if bare else "value")
@@ -278,6 +471,21 @@ class Module:
                                     and m.value.id == n.target.id for b in n.body for m in ast.walk(b)):
                         if src.value.id not in fn.out_params:
                             fn.out_params.append(src.value.id)
+        for fn in self.funcs.values():
+            pnames = [a.arg for a in fn.node.args.args if a.arg != "self"]
+            sig = self.spec.get("signatures", {}).get(fn.name, {})
+            for n in ast.walk(fn.node):
+                p = None
+                if isinstance(n, ast.Attribute) and isinstance(n.ctx, ast.Store) and isinstance(n.value, ast.Name) and n.value.id in pnames:
+                    p = n.value.id
+                if isinstance(n, ast.Call) and isinstance(n.func, ast.Attribute) and isinstance(n.func.value, ast.Name) and n.func.value.id in pnames:
+                    cls = sig.get(n.func.value.id)
+                    a = next((x.annotation for x in fn.node.args.args if x.arg == n.func.value.id), None)
+                    cls = cls or (dotted(a) if a is not None else None)
+                    if cls in self.objects and self.objects[cls]["methods"].get(n.func.attr, {}).get("mutates"):
+                        p = n.func.value.id
+                if p is not None and p not in fn.out_params:
+                    fn.out_params.append(p)
         # mutual recursion is not supported; order: callees first, otherwise source order
         order, state = [], {}
 
@@ -329,10 +537,16 @@ class Module:
         if a is None:
             return TVar()
         d = dotted(a)
+        if d in self.opaque:
+            return TObj(d)
+        if isinstance(a, ast.Subscript) and (dotted(a.value) or "").split(".")[-1] == "Optional":
+            return TOpt(self.ann_type(a.slice))
         if d in self.records:
             return TObj(d)
         if d in self.objects:
             return TObj(self.objects[d]["lean_type"])
+        if d in getattr(self, "ext_classes", {}):
+            return TObj("PyRt." + d)
         if d in ("int",):
             return TInt
         if d in ("bool",):
@@ -372,10 +586,18 @@ class Module:
                     ds = "true" if d.value else "false"
                 elif isinstance(d, ast.Constant) and isinstance(d.value, int):
                     ds = int_lit(d.value)
+                elif isinstance(d, ast.Constant) and d.value is None and "Optional" in (self.spec.get("signatures", {}).get(fn.name, {}).get(p.arg) or ""):
+                    ds = "none"
+                elif isinstance(d, ast.Constant) and d.value is None and self.spec.get("signatures", {}).get(fn.name, {}).get(p.arg):
+                    ds = None        # `= None` default of a parameter whose type the spec declares: the argument must be given
                 else:
-                    raise Unsupported("unsupported default value of parameter %s of %s" % (p.arg, fn.name), d)
+                    q = const_fraction(d)
+                    if q is None:
+                        raise Unsupported("unsupported default value of parameter %s of %s" % (p.arg, fn.name), d)
+                    ds = int_lit(q.numerator) if q.denominator == 1 and not any(isinstance(n, ast.Constant) and isinstance(n.value, float) for n in ast.walk(d)) and "**" not in ast.unparse(d) \
+                        else "(((%d : Int) : Rat) / ((%d : Int) : Rat))" % (q.numerator, q.denominator)
             decl = self.spec.get("signatures", {}).get(fn.name, {}).get(p.arg)
-            fn.params.append((p.arg, self.type_of_text(decl) if (decl and p.annotation is None) else self.ann_type(p.annotation), ds))
+            fn.params.append((p.arg, self.type_of_text(decl) if decl else self.ann_type(p.annotation), ds))
 
     def find_measure(self, fn):
         """a parameter that every recursive call passes as `p - <positive literal>`"""
@@ -393,19 +615,37 @@ class Module:
                 return pn
         raise Unsupported("no decreasing integer parameter found for the recursive function %s" % fn.name, fn.node)
 
+    def ghost_of(self, fn):
+        """ghost parameters (e.g. the fuel of a loop without a natural bound) of fn and of everything it calls"""
+        out = dict(self.ghost.get(fn.name, {}))
+        for c in fn.calls:
+            if c is not fn:
+                out.update(self.ghost_of(c))
+        return out
+
     def translate_fn(self, fn):
         self.cur_scope = fn.scope
-        cx = FnCtx(self, fn)
-        for pn, pt, _ in fn.params:
-            cx.set_var(pn, pt, fn.node, borrowed=True)
-        pre = []
-        if fn.is_ctor:
-            pre = ["let self : %s := default" % self.cls_name]
-        if fn.recursive:
-            fn.measure = self.find_measure(fn)
-            cx.fuel_name = cx.fresh("fuel")
-        fn.pruned = False
-        body = pre + cx.block(list(fn.node.body), FnFin(cx))
+        for _attempt in range(12):
+            log0 = len(self.records_log)
+            cx = FnCtx(self, fn)
+            for pn, pt, _ in fn.params:
+                cx.set_var(pn, pt, fn.node, borrowed=True)
+            for gname, gtype in self.ghost_of(fn).items():
+                cx.set_var(gname, self.type_of_text(gtype), fn.node, borrowed=True)
+            pre = []
+            if fn.is_ctor:
+                pre = ["let self : %s := default" % self.cls_name]
+            if fn.recursive:
+                fn.measure = self.find_measure(fn)
+                cx.fuel_name = cx.fresh("fuel")
+            fn.pruned = False
+            try:
+                body = pre + cx.block(list(fn.node.body), FnFin(cx))
+                break
+            except Widen:                                  # a loop-carried int variable receives a float: start again with it as a float
+                del self.records_log[log0:]
+        else:
+            raise Unsupported("numeric widening of loop-carried variables did not settle in %s" % fn.name, fn.node)
         if fn.pruned:                                      # the slice is only meaningful under the assumption: make it explicit
             guards = []
             for key, dom in self.assume.items():
@@ -414,21 +654,40 @@ class Module:
             body = ["if !(%s) then default else" % " && ".join(guards)] + body
         asserts = [r["text"] for r in self.records_log if r["kind"] == "assert" and r["function"] == fn.name and r["file"] == fn.relfile]
         doc = "`%s%s` of `%s`" % ((self.cls_name + ".") if fn.cls else "", fn.name, fn.relfile)
+        if fn.owner is not None:
+            doc = "`%s.%s` of `%s` (class of the family)" % (fn.owner, fn.node.name, fn.relfile)
+        elif fn.cls and fn.name in getattr(self, "inherited", {}):
+            doc = "`%s.%s` of `%s`, inherited by `%s`" % (self.inherited[fn.name], fn.name, fn.relfile, self.cls_name)
+        if fn.variant is not None:
+            doc = "`%s.%s` of `%s` read with %s%s" % (self.cls_name, fn.variant["function"], fn.relfile,
+                   ", ".join("%s : %s" % kv for kv in fn.variant.get("signature", {}).items()),
+                   ("; assumed: " + ", ".join("`%s` is %s" % kv for kv in fn.variant.get("assume_exprs", {}).items())) if fn.variant.get("assume_exprs") else "")
+        if fn.name in self.prefix:
+            doc += "; PREFIX of the function: the statements before `%s`, result = (changed parameters, %s)" % (
+                self.prefix[fn.name]["until"], ", ".join(self.prefix[fn.name]["observe"]))
         if fn.pruned:
             doc += "; SLICE under the assumption %s (branches that are dead under it are not translated; outside it the result is `default`)" % self.assume_text()
         if asserts:
             doc += "; asserts of the source (hypotheses, not executed): " + "; ".join("`%s`" % a for a in asserts)
         binders = []
+        if fn.uses_abstract:
+            binders.append(("F", " ".join(["Abstract"] + self.opaque), None))
         if fn.is_method and not fn.is_ctor:
             binders.append(("self", self.tref(self.cls_type), None))
         for pn, pt, ds in fn.params:
             binders.append((ident(pn), self.tref(pt), ds))
+        for gname, gtype in self.ghost_of(fn).items():
+            binders.append((ident(gname), self.tref(self.type_of_text(gtype)), None))
         rtype = self.tref(fn.full_type(self))
         out = ["/-- %s -/" % doc]
         if not fn.recursive:
             sig = " ".join("(%s : %s%s)" % (n, t, " := " + d if d else "") for n, t, d in binders)
             out.append("def %s %s: %s :=" % (fn.lean_name, sig + " " if sig else "", rtype))
             out += indent(body)
+            if fn.name in self.spec.get("freshness", []):
+                out += ["", "/-- aliasing certificate of `%s` (ownership analysis of the translator): every returned container is a fresh object, "
+                        "i.e. shares no memory with the attributes of `self` or with the arguments -/" % fn.name,
+                        "def %s.result_is_fresh : Bool := %s" % (fn.lean_name, "true" if all(fn.fresh_returns) else "false")]
         else:
             doc2 = ("recursion of `%s` with an explicit fuel argument (structural); fuel exhausted = the Python recursion does not "
                     "terminate, result `default`" % fn.name)
@@ -470,16 +729,77 @@ class Module:
             st += ["  %s : %s" % (ident(f), self.tref(t)) for f, t in r["fields"]]
             st += ["  %s : %s" % (ident(m), self.tref(t)) for m, t in r["getters"].items()]
             st += ["deriving Repr, Inhabited", ""]
+        tp = (" (" + " ".join(self.opaque) + " : Type)") if self.opaque else ""
+        if self.effects or self.reads or self.read_attrs:
+            st += ["/-- the part of the object that is NOT translated, as an abstract parameter: an opaque state `W` (`self.world`) with the",
+                   "state-changing operations (`W → … → W × result`) and the pure observations (`W → … → result`) the translated functions use -/",
+                   "structure Abstract%s where" % tp]
+            for k, v in self.effects.items():
+                ts = ["W"] + ["(%s)" % self.tref(a) for a in v["args"]] + [("W × (%s)" % self.tref(v["ret"])) if v["ret"] is not None else "W"]
+                st.append("  %s : %s    -- `%s(..)`" % (ident(v["name"]), " → ".join(ts), k))
+            for k, v in list(self.reads.items()) + list(self.read_attrs.items()):
+                ts = ["W"] + ["(%s)" % self.tref(a) for a in v["args"]] + ["(%s)" % self.tref(v["ret"])]
+                st.append("  %s : %s    -- `%s`" % (ident(v["name"]), " → ".join(ts), k))
+            st.append("")
+        if self.abstract:
+            st += ["/-- the abstract methods of class `%s` that the translated functions call: parameters of the translation (assumed to be pure) -/" % self.cls_name,
+                   "structure Abstract where"]
+            for m, sig in self.abstract.items():
+                ts = [self.tref(a) for a in sig["args"]] + [self.tref(sig["ret"])]
+                st.append("  %s : %s" % (ident(m), " → ".join(("(%s)" % t) for t in ts) if len(ts) > 1 else "Unit → (%s)" % ts[0]))
+            st.append("")
         st += ["/-- attributes assigned through `self.` anywhere in class `%s` (an attribute that was never assigned reads as `default`) -/" % self.cls_name
                if "fields" not in self.spec else
                "/-- the attributes of class `%s` that the translated functions use (declared in the spec) -/" % self.cls_name,
-               "structure %s where" % self.state_name]
+               "structure %s%s where" % (self.state_name, tp)]
         for f, t in self.fields.items():
             st.append("  %s : %s" % (ident(f), self.tref(t)))
-        st += ["deriving Repr, Inhabited", ""]
-        text = "\n".join(head + st + [l for c in chunks for l in c + [""]] + ["end %s" % self.namespace, ""])
+        st += ["deriving Repr, Inhabited" if not self.opaque else "deriving Inhabited", ""]
+        if self.opaque:
+            head = head[:-1] + ["variable {%s : Type}" % " ".join(self.opaque), ""]
+        fam = self.family_block() if self.family else []
+        text = "\n".join(head + st + [l for c in chunks for l in c + [""]] + fam + ["end %s" % self.namespace, ""])
+        def ground(t):           # a type nothing constrains (an unused `x = None`, an unused `[]`): any type will do
+            t = t.find()
+            if t.kind == "var":
+                t.ref = TUnit
+            for a in t.args:
+                ground(a)
+        for t in self.trefs.values():
+            ground(t)
         text = re.sub(r"⟪(\d+)⟫", lambda m: lean_type(self.trefs[int(m.group(1))]), text)
         return text
+
+    def family_block(self):
+        """class tag, object record and one dispatching definition per declared method of the family"""
+        tname, tag = self.family.get("type", "Obj"), self.family.get("tag", "Cls")
+        if self.opaque or self.abstract or self.effects or self.reads:
+            raise Unsupported("family of classes together with abstract operations / opaque types")
+        out = ["/-- the concrete classes of the family (subclasses of `%s` that add no attributes: their constructors only forward to the" % self.cls_name,
+               "base constructor) -/", "inductive %s where" % tag]
+        out += ["  | %s" % ident(c) for c in self.family["classes"]]
+        out += ["deriving Repr, DecidableEq, Inhabited", "",
+                "/-- an object of one of these classes: its class and its attributes -/",
+                "structure %s where" % tname, "  cls : %s" % tag, "  st : %s" % self.state_name, "deriving Repr, Inhabited", ""]
+        for m in self.family["methods"]:
+            res = [(c, self.funcs[(c + "_" + m) if m in self.family_defs[c] else m]) for c in self.family["classes"]]
+            f0 = res[0][1]
+            for c, fn in res:
+                if fn.is_static or fn.mutates or fn.ret_mode != "value" or fn.out_params or self.ghost_of(fn) or fn.uses_abstract \
+                        or len(fn.params) != len(f0.params) or [p[0] for p in fn.params] != [p[0] for p in f0.params]:
+                    raise Unsupported("method %s of the family: only pure value-returning instance methods with the same parameters in every class" % m, fn.node)
+                for (_, t, _), (_, t0, _) in zip(fn.params, f0.params):
+                    unify(t, t0, fn.node, "parameter of the family method %s" % m)
+                unify(fn.ret, f0.ret, fn.node, "result of the family method %s" % m)
+            sig = " ".join("(%s : %s)" % (ident(pn), self.tref(pt)) for pn, pt, _ in f0.params)
+            args = " ".join(ident(pn) for pn, _, _ in f0.params)
+            out += ["/-- `obj.%s(..)` on an object of the family: Python's dynamic dispatch on the class of the object (the nearest definition" % m,
+                    "along the chain of base classes) -/",
+                    "def %s.%s (o : %s) %s: %s :=" % (tname, ident(m), tname, sig + " " if sig else "", self.tref(f0.full_type(self))),
+                    "  match o.cls with"]
+            out += ["  | .%s => %s.%s o.st %s" % (ident(c), self.namespace, fn.lean_name, args) for c, fn in res]
+            out.append("")
+        return out
 
     def side_info(self):
         return {"source": self.relfile, "class": self.cls_name,
@@ -490,8 +810,13 @@ class Module:
                 "asserts": [r for r in self.records_log if r["kind"] == "assert"],
                 "dropped": [r for r in self.records_log if r["kind"] == "dropped"],
                 "pruned": [r for r in self.records_log if r["kind"] == "pruned"],
+                "prefix": [r for r in self.records_log if r["kind"] == "prefix"],
+                "assumed": [r for r in self.records_log if r["kind"] == "assumed"],
                 "fuel": [r for r in self.records_log if r["kind"] == "fuel"],
                 "assume": self.assume,
+                "inherited": getattr(self, "inherited", {}) and {k: v for k, v in self.inherited.items() if k in self.funcs},
+                "family": self.family and {"classes": self.family["classes"], "methods": self.family["methods"],
+                                           "defined_in_subclass": {c: sorted(d) for c, d in self.family_defs.items()}},
                 "library_bindings": sorted(list(BUILTINS) + ["math.factorial", "numpy.array", "numpy.ones", "numpy.full", "itertools.product"] + list(self.ext_classes))}
 
 
